@@ -163,6 +163,14 @@ def step (st : St) (line : String) : St × String :=
       ({ c := st.c.step L (.drain t), seen := seenSet st.seen t log.length },
         toString new.length ++ String.join (new.map fun m => " " ++ showMsg m))
     | none => (st, "bad-op")
+  | ["split-lens", n] =>
+    -- chunk lengths of `split` at the real constants for a message of n bytes (never materialised)
+    match nat? n with
+    | some n =>
+      let ls := splitLens n L.chunk
+      (st, toString ls.length ++ " sum=" ++ toString ls.sum ++ " first=" ++ toString (ls.head?.getD 0) ++ " last=" ++ toString (ls.getLast?.getD 0)
+        ++ " max=" ++ toString (ls.foldl max 0))
+    | none => (st, "bad-op")
   | ["fill", t, n] =>
     -- scenario slow-consumer-inbox-overflow: n one-packet messages straight to the receiver, nobody reading
     match nat? t, nat? n with
